@@ -493,7 +493,11 @@ Clear ==
   /\ bc' = <<>>
   /\ step' = [act |-> "Clear"]
 
-(* ---- ReadState ---- *)
+(* ---- ReadState ----
+   Blocking assumption: a read is atomic with respect to every other read and write of the channel -- its sorted view is ONE
+   consistent order of the keys it returns (the code holds channel.mu from the rebuild of the cached sortedKeys slice to the
+   last page entry, under the hub's read lock).  The harness mode `readers` probes it: concurrent walks in both directions over
+   an unchanging ordered channel must each enumerate the sorted keys exactly once. *)
 ReadState(cur, limit, asc, key, rev) ==
   /\ Settled /\ nops < MaxOps
   /\ nops' = nops + 1
